@@ -41,7 +41,7 @@ STATEMENT: {d['statement']}
 QUANTIFIED OVER: {d['quantifier']['text']}
 CODE AREAS INVOLVED: {areas}
 
-Your task: produce ONE realistic change to the source under {wt}/src/quansino (the kind of change a developer could plausibly make: a refactoring slip, an 'optimisation', an off-by-one, a changed default, a reordered statement, a dropped or duplicated call, a wrong variable, a cached value that goes stale, a condition that is right for the common case only, two sites that each look fine alone but disagree) that BREAKS this property, while the package still imports and the WHOLE existing test suite still passes. {focus_txt}The statement has several clauses: prefer breaking one of the LESS obvious clauses, at a site other than the most obvious function, and prefer a change that needs something specific to manifest (a particular sequence of operations, an unusual but legal input, a particular accept/reject/fail history, a crash or fault at a particular point, a non-default configuration, two cooperating sites) rather than one that ordinary use would expose at once. The change may be disguised as a refactoring (helper extracted, code moved) as long as behaviour really changes. Do not touch the tests. Keep the change small (a few lines, one or two files).
+Your task: produce ONE realistic change to the source under {wt}/src/quansino (the kind of change a developer could plausibly make: a refactoring slip, an 'optimisation', an off-by-one, a changed default, a reordered statement, a dropped or duplicated call, a wrong variable, a cached value that goes stale, a condition that is right for the common case only, two sites that each look fine alone but disagree) that BREAKS this property, while the package still imports and the WHOLE existing test suite still passes. {style_txt}{focus_txt}The statement has several clauses: prefer breaking one of the LESS obvious clauses, at a site other than the most obvious function, and prefer a change that needs something specific to manifest (a particular sequence of operations, an unusual but legal input, a particular accept/reject/fail history, a crash or fault at a particular point, a non-default configuration, two cooperating sites) rather than one that ordinary use would expose at once. The change may be disguised as a refactoring (helper extracted, code moved) as long as behaviour really changes. Do not touch the tests. Keep the change small (a few lines, one or two files).
 
 Deliver, all inside {wt}/seed_out/ :
 1. patch.diff — `git -C {wt} diff` of your source change only (must apply to the unchanged tree with `git apply`).
